@@ -2,10 +2,12 @@ package main
 
 import (
 	"encoding/json"
+	"errors"
 	"flag"
 	"fmt"
 	"reflect"
 	"strings"
+	"time"
 
 	ucfg "github.com/elastic/go-ucfg"
 )
@@ -34,16 +36,138 @@ func allocate(v reflect.Value) {
 			allocate(v.Elem())
 		}
 	case reflect.Interface:
-		if v.NumMethod() == 0 {
+		// an interface-typed field that already holds a concrete value
+		switch {
+		case v.NumMethod() == 0:
 			v.Set(reflect.ValueOf("old"))
+		case v.Type() == packPrims["iunp"]:
+			v.Set(reflect.ValueOf(new(uAny)))
+		case v.Type() == packPrims["istr"]:
+			v.Set(reflect.ValueOf(time.Second))
+		case v.Type() == packPrims["ierr"]:
+			v.Set(reflect.ValueOf(errors.New("old")))
 		}
 	case reflect.Slice:
+		// (elements allocated too: a slice of non-nil pointers)
 		v.Set(reflect.MakeSlice(v.Type(), 1, 1))
+		allocate(v.Index(0))
+	case reflect.Array:
+		for i := 0; i < v.Len(); i++ {
+			allocate(v.Index(i))
+		}
 	case reflect.Map:
 		m := reflect.MakeMap(v.Type())
-		m.SetMapIndex(reflect.ValueOf("k"), reflect.Zero(v.Type().Elem()))
+		e := reflect.New(v.Type().Elem()).Elem()
+		allocate(e)
+		m.SetMapIndex(reflect.ValueOf("k"), e)
 		v.Set(m)
 	}
+}
+
+// named primitive types WITHOUT methods (kinds nstr, nbool, nint, nfloat of the target universe)
+type ntStr string
+type ntBool bool
+type ntInt int32
+type ntFloat float64
+
+func init() {
+	packPrims["nstr"] = reflect.TypeOf(ntStr(""))
+	packPrims["nbool"] = reflect.TypeOf(ntBool(false))
+	packPrims["nint"] = reflect.TypeOf(ntInt(0))
+	packPrims["nfloat"] = reflect.TypeOf(ntFloat(0))
+}
+
+// types whose method set LOOKS like an unpacker but is not one (kinds of the target universe):
+//   unores   Unpack(*Config) without a result      ubad2    Unpack with two parameters
+//   uother   Unpack(int) error                      uvalrc   a valid Unpack on a VALUE receiver
+// and fields of INTERFACE types with methods: iunp (ucfg.Unpacker), istr (fmt.Stringer), ierr (error)
+type tNoRes struct{ A int }
+
+func (t *tNoRes) Unpack(c *ucfg.Config) {}
+
+type tBad2 struct{ A int }
+
+func (t *tBad2) Unpack(c *ucfg.Config, x int) error { return nil }
+
+type tOther struct{ A int }
+
+func (t *tOther) Unpack(x int) error { return nil }
+
+type tValRc struct{ A int }
+
+func (t tValRc) Unpack(v interface{}) error { return nil }
+
+type tNoResAny struct{ A int }
+
+func (t *tNoResAny) Unpack(v interface{}) {}
+
+func init() {
+	packPrims["unores"] = reflect.TypeOf(tNoRes{})
+	packPrims["unoresany"] = reflect.TypeOf(tNoResAny{})
+	packPrims["ubad2"] = reflect.TypeOf(tBad2{})
+	packPrims["uother"] = reflect.TypeOf(tOther{})
+	packPrims["uvalrc"] = reflect.TypeOf(tValRc{})
+	packPrims["iunp"] = reflect.TypeOf((*ucfg.Unpacker)(nil)).Elem()
+	packPrims["istr"] = reflect.TypeOf((*fmt.Stringer)(nil)).Elem()
+	packPrims["ierr"] = reflect.TypeOf((*error)(nil)).Elem()
+}
+
+type targetRes struct {
+	Pre  string `json:"pre"`
+	Kind string `json:"kind"` // ok | err | untyped | panic | infra
+	Msg  string `json:"msg,omitempty"`
+	Type string `json:"type,omitempty"`
+}
+
+// targetsChild runs one case (three target variants) inside a child process: a target that makes Unpack
+// spin or recurse forever kills only that child, and the case is reported as a hang
+func targetsChild(req []byte) interface{} {
+	var c targetCase
+	if err := json.Unmarshal(req, &c); err != nil {
+		return []targetRes{{Kind: "infra", Msg: err.Error()}}
+	}
+	ft := buildType(c.Ty.F[0].T)
+	tag := `config:"f0"`
+	if c.VTag != "" {
+		tag += fmt.Sprintf(` validate:"%s"`, c.VTag)
+	}
+	st := reflect.StructOf([]reflect.StructField{{Name: "F0", Type: ft, Tag: reflect.StructTag(tag)}})
+	cfg, err := ucfg.NewFrom(faultTreeGo(c.Tree))
+	if err != nil {
+		return []targetRes{{Kind: "infra", Msg: "config: " + err.Error()}}
+	}
+	var out []targetRes
+	for _, pre := range []string{"zero", "allocated", "bare-field-type"} {
+		r := targetRes{Pre: pre, Type: fmt.Sprint(st)}
+		var uerr error
+		panicked, msg := guard(func() {
+			switch pre {
+			case "bare-field-type":
+				// the field type itself as the top-level target (mostly unsupported: an error, not a panic)
+				t := reflect.New(ft)
+				uerr = cfg.Unpack(t.Interface())
+			default:
+				t := reflect.New(st)
+				if pre == "allocated" {
+					allocate(t.Elem().Field(0))
+				}
+				uerr = cfg.Unpack(t.Interface())
+			}
+		})
+		switch {
+		case panicked:
+			r.Kind, r.Msg = "panic", msg
+		case uerr == nil:
+			r.Kind = "ok"
+		default:
+			r.Kind, r.Msg = "err", uerr.Error()
+			if _, ok := uerr.(ucfg.Error); !ok {
+				r.Kind = "untyped"
+			}
+		}
+		out = append(out, r)
+	}
+	return out
 }
 
 func targetsReplay(args []string) int {
@@ -51,62 +175,45 @@ func targetsReplay(args []string) int {
 	fs.Int64("seed", 1, "seed")
 	fs.Parse(args)
 	rep := newReporter("targets")
+	pool := newIsoPool("targets", 8, 3*time.Second)
+	defer pool.close()
 	runCases(func(raw []byte, rep *reporter) {
-		var c targetCase
-		if err := json.Unmarshal(raw, &c); err != nil {
-			rep.infra("case: " + err.Error())
-			return
-		}
 		rep.begin(raw)
 		rep.nontrivial(raw)
-		ft := buildType(c.Ty.F[0].T)
-		tag := `config:"f0"`
-		if c.VTag != "" {
-			tag += fmt.Sprintf(` validate:"%s"`, c.VTag)
-		}
-		st := reflect.StructOf([]reflect.StructField{{Name: "F0", Type: ft, Tag: reflect.StructTag(tag)}})
-		cfg, err := ucfg.NewFrom(faultTreeGo(c.Tree))
-		if err != nil {
-			rep.infra("config: " + err.Error())
+		resp, status := pool.do(raw)
+		if status != "ok" {
+			if strings.HasPrefix(status, "infra") {
+				rep.infra(status)
+				return
+			}
+			// the child died (stack overflow, out of memory) or did not answer within the deadline
+			rep.violate("target-"+status, raw, status, "Unpack returns a value or an error", "Unpack did not return (child process "+status+")")
 			return
 		}
-		for _, pre := range []string{"zero", "allocated", "bare-field-type"} {
-			var uerr error
-			panicked, msg := guard(func() {
-				switch pre {
-				case "bare-field-type":
-					// the field type itself as the top-level target (mostly unsupported: an error, not a panic)
-					t := reflect.New(ft)
-					uerr = cfg.Unpack(t.Interface())
-				default:
-					t := reflect.New(st)
-					if pre == "allocated" {
-						allocate(t.Elem().Field(0))
-					}
-					uerr = cfg.Unpack(t.Interface())
-				}
-			})
-			if panicked {
-				short := msg
+		var rs []targetRes
+		if err := json.Unmarshal(resp, &rs); err != nil {
+			rep.infra("child answer: " + err.Error())
+			return
+		}
+		for _, r := range rs {
+			switch r.Kind {
+			case "infra":
+				rep.infra(r.Msg)
+			case "panic":
+				short := r.Msg
 				if i := strings.Index(short, "\n"); i >= 0 {
 					short = short[:i]
 				}
 				if len(short) > 70 {
 					short = short[:70]
 				}
-				rep.violate("target-panic/"+short, raw, msg, "a value or an error", fmt.Sprintf("Unpack into %v (%s)", st, pre))
-				continue
+				rep.violate("target-panic/"+short, raw, r.Msg, "a value or an error", fmt.Sprintf("Unpack into %s (%s)", r.Type, r.Pre))
+			case "untyped":
+				rep.violate("target-untyped-error/"+r.Pre, raw, r.Msg, "a ucfg.Error", fmt.Sprintf("Unpack into %s (%s)", r.Type, r.Pre))
+			default:
+				rep.class("outcome:" + r.Kind)
+				rep.okIdeal()
 			}
-			if uerr != nil {
-				rep.class("outcome:error")
-				if _, ok := uerr.(ucfg.Error); !ok {
-					rep.violate("target-untyped-error/"+pre, raw, uerr.Error(), "a ucfg.Error", fmt.Sprintf("Unpack into %v (%s)", st, pre))
-					continue
-				}
-			} else {
-				rep.class("outcome:ok")
-			}
-			rep.okIdeal()
 		}
 	}, rep)
 	return rep.finish()
@@ -114,4 +221,5 @@ func targetsReplay(args []string) int {
 
 func init() {
 	register("targets", &family{replay: targetsReplay})
+	registerChild("targets", targetsChild)
 }
